@@ -4,11 +4,19 @@ constants, + - * / unary minus, exp log sqrt cos sin tanh abs) are printed to .m
 `c` interfaces of the mfront built from the working tree, called on random inputs with default parameters and with run-time
 overrides (<name>_setParameter), and compared with the Gallina evaluator `eval` (extracted; the record of double
 operations is supplied by the OCaml driver).  Theorems: eval over R is the real denotation; override = recompiling with
-that default; unused parameters are irrelevant."""
-import math, os, sys
-from vlib import guarded_main, REPO_BUILD
+that default; unused parameters are irrelevant.
+Second stage, `@Data` tables (one input): random tables x interpolation {default, "linear", "cubic_spline"} x extrapolation
+{default, true, false, "constant", "bound_to_last_value"} through the same two interfaces, called inside the table, at the
+nodes and outside on both sides (near / far), compared with C11's Gallina interpolation model (`lin`, `build`, `spl`, copied
+at run time under the logical prefix C37 and wrapped by coq/C37Data.v) evaluated exactly over Q by vm_compute, and with an
+independent statement in Python rationals (datalaw.py).  Theorems: coq/Properties_C37_data.v."""
+import math, os, re, sys, threading
+from fractions import Fraction as Fr
+from vlib import guarded_main, REPO_BUILD, VERIF
 sys.path.insert(0, os.path.join(os.path.dirname(os.path.abspath(__file__)), "..", "C38"))
+sys.path.insert(0, os.path.dirname(os.path.abspath(__file__)))
 from mplib import MFrontSemaphore, mfront_exe
+import datalaw as dl
 
 MODEL = ["C37Model.v"]
 EXTRACT = """From C37 Require Import C37Model.
@@ -116,12 +124,199 @@ def close(a, b, tol=1e-13):
     return abs(a - b) <= tol * max(abs(a), abs(b), 1e-300)
 
 
+# ====================================================================== @Data stage
+def data_programs(c):
+    """tables and the @Data programs built on them.  quick: 6 tables; the 15 option combinations are dealt over the five
+    tables of >= 2 points so that each table gets a default-scheme, a "linear" and a "cubic_spline" program with different
+    extrapolation settings; thorough: 12 tables x the 15 combinations."""
+    rng = c.rng
+    shapes = [(1, "plain"), (2, "plain"), (3, "corpus"), (rng.randint(4, 8), "uneven"), (rng.randint(2, 5), "decimal"), (rng.randint(4, 8), "big")]
+    if not c.quick():
+        shapes += [(2, "uneven"), (3, "plain"), (4, "affine"), (5, "fine"), (6, "const"), (8, "plain")]
+    tables, progs = [], []
+    k = 0
+    for ti, (n, kind) in enumerate(shapes):
+        n = min(n, 5) if kind == "decimal" else n
+        xt, yt = dl.gen_table(rng, n, kind)
+        xs, ys = [float(v) for v in xt], [float(v) for v in yt]
+        tables.append(dict(xs_text=xt, ys_text=yt, xs=xs, ys=ys, kind=kind, queries=dl.queries(rng, xs)))
+        if c.quick():
+            if n == 1:
+                combos = [("cubic_spline", False)]
+            else:
+                combos = [(dl.INTERP[a], dl.EXTRAP[b]) for a in range(3) for b in range(5) if (a + b) % 5 == ti - 1]
+        else:
+            combos = [(io, eo) for io in dl.INTERP for eo in dl.EXTRAP]
+        for io, eo in combos:
+            order = list(range(n))
+            if rng.random() < 0.5:
+                rng.shuffle(order)                     # `values` is a map: the order of the entries is irrelevant
+            nent = 1 + (io is not None) + (eo is not None)
+            eorder = list(range(nent))
+            rng.shuffle(eorder)
+            progs.append(dict(name="C37D%d" % k, nin=1, npar=0, table=ti, io=io, eo=eo, xs_text=xt, ys_text=yt, value_order=order,
+                              entry_order=eorder))
+            k += 1
+    progs.append(dict(name="C37D%d" % k, nin=0, npar=0, table=None, value_text="1.23456789"))     # @Data without input
+    return tables, progs
+
+
+def data_compare(c, tables, progs, obs, cases, gdir):
+    """observed values (generic, status, C) of every case vs the Gallina model over Q vs the independent statement"""
+    # the scratch copies already compiled by the background Coq job (same path => neither copied nor recompiled by coq_eval)
+    wd = os.path.join(c.work, "coq")
+    model_files = [os.path.join(wd, n) if os.path.exists(os.path.join(wd, n[:-2] + ".vo")) else src
+                   for n, src in (("C11Model.v", os.path.join(gdir, "C11Model.v")), ("C37Data.v", "C37Data.v"))]
+    # ---- the model, exactly, one Eval per table (nodal derivatives) and per program (all its queries)
+    v = [dl.HEADER]
+    for tb in tables:
+        tb["X"], tb["Y"] = [Fr(a) for a in tb["xs"]], [Fr(b) for b in tb["ys"]]
+        v.append("Eval vm_compute in ederivs %s." % dl.coq_tab(tb["X"], tb["Y"]))
+    tprogs = [p for p in progs if p["table"] is not None]
+    for p in tprogs:
+        tb = tables[p["table"]]
+        v.append("Eval vm_compute in eflags %s %s." % (dl.coq_io(p["io"]), dl.coq_eo(p["eo"])))
+        v.append("Eval vm_compute in edata %s %s %s [%s]." % (dl.coq_io(p["io"]), dl.coq_eo(p["eo"]), dl.coq_tab(tb["X"], tb["Y"]),
+                                                            "; ".join(dl.q(x) for _k, x in tb["queries"])))
+    rc, mout, merr = c.coq_eval(model_files, "\n".join(v) + "\n", timeout=1500)
+    if rc != 0 and not merr.strip():          # coqc killed from outside (shared machine): once more
+        rc, mout, merr = c.coq_eval(model_files, "\n".join(v) + "\n", timeout=1500)
+    c.log("@Data: model evaluated over Q")
+    if rc != 0:
+        c.report("data-model-eval", "evaluation of the @Data model failed: " + merr[-500:], {"stderr": merr[-3000:]}, False)
+        return
+    model = [[int(s) for s in re.findall(r"-?\d+", m)] for m in re.findall(r"=\s*\[([^\]]*)\]", mout.replace("%Z", ""))]
+    if len(model) != len(tables) + 2 * len(tprogs):
+        c.report("data-model-eval", "the @Data model returned %d results for %d commands" % (len(model), len(tables) + 2 * len(tprogs)),
+                 {"stdout": mout[-2000:]}, False)
+        return
+    fr = lambda l: [Fr(l[i], l[i + 1]) for i in range(0, len(l), 2)]
+    nrep = [0, 0]
+
+    def report(key, what, rep, found=True):
+        nrep[1] += 1
+        if nrep[0] < 4:                        # a broken emitter fails everywhere: a few concrete inputs are enough
+            nrep[0] += 1
+            c.report(key, what, rep, found)
+
+    for ti, tb in enumerate(tables):
+        X, Y, n = tb["X"], tb["Y"], len(tb["X"])
+        tb["spline"] = dl.NaturalSpline(X, Y)
+        d_spec = [tb["spline"].slope_at(i) for i in range(n)] if n > 1 else [Fr(0)]
+        d_model = fr(model[ti])
+        if d_model != d_spec:
+            report("data-model:derivs:%d" % ti, "nodal derivatives of the model's `build` differ from those of the natural spline (moment formulation) on "
+                   "x=%s y=%s" % (tb["xs_text"], tb["ys_text"]), {"model": [float(d) for d in d_model], "spec": [float(d) for d in d_spec]}, False)
+        tb["span"] = X[-1] - X[0]
+        tb["ymax"] = max(abs(b) for b in Y)
+        tb["smax"] = max([abs((Y[i + 1] - Y[i]) / (X[i + 1] - X[i])) for i in range(n - 1)] or [Fr(0)])
+        tb["dmax"] = max(abs(d) for d in d_spec)
+    byprog = {}
+    for cs in cases:
+        byprog.setdefault(cs["prog"], []).append(cs)
+    combos, kinds, worst = set(), {}, {"linear": 0.0, "cubic_spline": 0.0}
+    for pi, p in enumerate(progs):
+        if p["table"] is None:                  # no input: the declared constant
+            cs = byprog[pi][0]
+            g, st, cv, _s = obs[cs["id"]]
+            want = float(p["value_text"])
+            c.count(1, (p["name"],), True)
+            for itf, val in (("generic", g), ("c", cv)):
+                if not close(val, want) or (itf == "generic" and st != 0):
+                    report("data:%s:%s" % (p["name"], itf), "%s interface of\n%s\nreturns %r (status %d), declared value %r" % (
+                        itf, dl.mfront_text(p), val, st, want), {"mfront_file": dl.mfront_text(p), "returned": val, "declared": want})
+            continue
+        tb = tables[p["table"]]
+        X, Y, n = tb["X"], tb["Y"], len(tb["X"])
+        k_ = len(tables) + 2 * tprogs.index(p)
+        mflags, mvals = model[k_], fr(model[k_ + 1])
+        spline, extrap = dl.doc_flags(p["io"], p["eo"])
+        combos.add((p["io"], p["eo"]))
+        if mflags != [int(spline), int(extrap)]:
+            report("data-model:options:%s:%s" % (p["io"], p["eo"]), "the model decodes interpolation=%r extrapolation=%r as (spline, extrapolate) = %s, documented %s"
+                   % (p["io"], p["eo"], mflags, [int(spline), int(extrap)]), {}, False)
+        if len(mvals) != len(tb["queries"]):
+            report("data-model:%s" % p["name"], "the model returned no value for " + dl.describe(p), {}, False)
+            continue
+        rtol = dl.RTOL_SPL if spline else dl.RTOL_LIN
+        slope = tb["smax"] + (tb["dmax"] if spline else 0)
+        for (kind, x), cs, M in zip(tb["queries"], byprog[pi], mvals):
+            A = Fr(x)
+            g, st, cv, _s = obs[cs["id"]]
+            S = tb["spline"].value(A, extrap) if spline else dl.lin_spec(X, Y, A, extrap)
+            dist = max(X[0] - A, A - X[-1], 0)
+            tol = rtol * (tb["ymax"] + slope * (tb["span"] + dist)) + dl.TINY
+            c.count(1, (p["name"], x), n > 1)
+            kinds[kind.split("-")[0]] = kinds.get(kind.split("-")[0], 0) + 1
+            if n > 1 and kind in ("inside", "left-far", "right-near") and (pi * 7 + cs["k"]) % 23 == 0:
+                c.sample({"program": p["name"], "law": dl.describe(p), "x0": x, "where": kind, "generic": g, "c": cv,
+                          "model_over_Q": float(M), "independent_statement": float(S), "tolerance": float(tol)}, limit=8)
+            rep = {"mfront_file": dl.mfront_text(p), "law": dl.describe(p), "x0": x, "where": kind, "generic_interface": g, "generic_status": st,
+                   "c_interface": cv, "model_over_Q": float(M), "independent_statement": float(S), "tolerance": float(tol)}
+            if M != S:
+                report("data-model:%s:%s" % (p["name"], x.hex()), "the Gallina model of %s at x0 = %r (%s) gives %r, the independent statement %r"
+                       % (dl.describe(p), x, kind, float(M), float(S)), rep, False)
+                continue
+            for itf, val in (("generic", g), ("c", cv)):
+                bad = None
+                if not math.isfinite(val) or (itf == "generic" and st != 0):
+                    bad = "returns %r%s" % (val, " (status %d)" % st if itf == "generic" else "")
+                elif abs(Fr(val) - S) > tol:
+                    bad = "returns %r" % val
+                else:
+                    sk = "cubic_spline" if spline else "linear"
+                    worst[sk] = max(worst[sk], float(abs(Fr(val) - S) / tol))
+                if bad:
+                    report("data:%s:%s:%s" % (p["name"], itf, x.hex()),
+                           "%s interface of %s\nat x0 = %r (%s the table [%s, %s]) %s; the declared law (%s interpolation, extrapolation %s) gives %r "
+                           "(Gallina model over Q and independent rational statement agree; tolerance %.3g)" % (
+                               itf, dl.describe(p), x, {"node": "a node of", "inside": "inside"}.get(kind, kind + " of"), tb["xs_text"][0],
+                               tb["xs_text"][-1], bad, "cubic-spline" if spline else "linear", "enabled" if extrap else "disabled: constant outside",
+                               float(S), float(tol)), rep, True)
+    if nrep[1] > nrep[0]:
+        c.notes.append("@Data: %d further failing cases not reported one by one" % (nrep[1] - nrep[0]))
+    c.coverage["data_option_combinations"] = sorted("%s/%s" % cb for cb in combos)
+    c.coverage["data_queries_by_place"] = kinds
+    c.coverage["data_largest_error_over_tolerance"] = worst
+    return combos
+
+
 def main(c):
     c.repo_build(["mfront"])
     mfront = mfront_exe(c, REPO_BUILD)
-    progs = [gen_program(c.rng, i) for i in range(c.pick(25, 150))]
+    # ---- Coq: C37's own files, then C11's development copied under this check's logical prefix, then the @Data files.
+    #      One sequential coqc job in the background while mfront / g++ work; joined before any other use of the scratch coq dir.
     gdir = os.path.join(c.work, "gen")
     os.makedirs(gdir, exist_ok=True)
+    c11 = []
+    for n in ("C11Model.v", "C11Spec.v", "C11Proofs.v", "C11Spline.v"):
+        txt = open(os.path.join(VERIF, "props", "C11", "coq", n)).read().replace("From C11 Require", "From C37 Require")
+        open(os.path.join(gdir, n), "w").write(txt)
+        c11.append(os.path.join(gdir, n))
+    coq_files = ["C37Model.v", "C37Spec.v", "C37Proofs.v", "Properties_C37.v"] + c11 + ["C37Data.v", "C37DataProofs.v", "Properties_C37_data.v"]
+    box = {}
+
+    def run_coq():
+        try:
+            box["res"] = c.coq(coq_files, timeout=900)
+        except BaseException as e:             # re-raised in the main thread
+            box["exc"] = e
+    th = threading.Thread(target=run_coq)
+    th.start()
+    try:
+        stages(c, mfront, gdir, th)
+    finally:
+        th.join()
+    if "exc" in box:
+        raise box["exc"]
+    res = box["res"]
+    if not res.ok:
+        c.coq_failures(res)
+
+
+def stages(c, mfront, gdir, coq_thread):
+    progs = [gen_program(c.rng, i) for i in range(c.pick(25, 150))]
+    tables, dprogs = data_programs(c)
     with MFrontSemaphore() as sem:
         for p in progs:
             open(os.path.join(gdir, p["name"] + ".mfront"), "w").write(mfront_text(p))
@@ -135,13 +330,72 @@ def main(c):
                 c.report("mfront:" + p["name"], "mfront rejects a generated material property: " + (out + err)[-500:],
                          {"mfront": mfront_text(p), "output": (out + err)[-2000:]}, True)
                 p["failed"] = True
+        c.log("mfront ran on %d formula material properties" % len(progs))
+        for p in dprogs:
+            open(os.path.join(gdir, p["name"] + ".mfront"), "w").write(dl.mfront_text(p))
+            open(os.path.join(gdir, p["name"] + "c.mfront"), "w").write(dl.mfront_text(p, "c"))
+            rc, out, err = c.run([mfront, "--interface=generic", p["name"] + ".mfront"], cwd=gdir, timeout=120)
+            sem.runs += 1
+            if rc == 0:
+                rc, out, err = c.run([mfront, "--interface=c", p["name"] + "c.mfront"], cwd=gdir, timeout=120)
+                sem.runs += 1
+            if rc != 0:
+                c.report("mfront:data:%s:%s" % (p.get("io"), p.get("eo")), "mfront rejects a documented @Data declaration:\n%s\n%s" % (
+                    dl.mfront_text(p), (out + err)[-500:]), {"mfront": dl.mfront_text(p), "output": (out + err)[-2000:]}, True)
+                p["failed"] = True
     progs = [p for p in progs if not p.get("failed")]
-    c.log("mfront ran on %d material properties" % len(progs))
+    dprogs = [p for p in dprogs if not p.get("failed")]
+    c.log("mfront ran on %d @Data material properties (%d tables)" % (len(dprogs), len(tables)))
     drv = os.path.join(gdir, "driver.cxx")
     open(drv, "w").write(driver_text(c.dir, progs))
     srcs = [drv] + [os.path.join(gdir, "src", p["name"] + s) for p in progs for s in ("-generic.cxx", "c.cxx")]
     exe = c.cxx("driver", srcs, [], flags=["-I" + os.path.join(gdir, "include"), "-ffp-contract=off"])
-    c.log("generated sources compiled")
+    c.log("generated sources compiled (formulae)")
+    ddrv = os.path.join(gdir, "ddriver.cxx")
+    open(ddrv, "w").write(driver_text(c.dir, dprogs))
+    srcs = [ddrv] + [os.path.join(gdir, "src", p["name"] + s) for p in dprogs for s in ("-generic.cxx", "c.cxx")]
+    dexe = c.cxx("ddriver", srcs, ["src/Exception/ContractViolation.cxx"], flags=["-I" + os.path.join(gdir, "include"), "-ffp-contract=off"])
+    c.log("generated sources compiled (@Data)")
+    # ---- @Data: run the real code
+    dcases = []
+    for pi, p in enumerate(dprogs):
+        pts = tables[p["table"]]["queries"] if p["table"] is not None else [("none", None)]
+        for k, (_kind, x) in enumerate(pts):
+            dcases.append(dict(id="%d_%d" % (pi, k), prog=pi, k=k, xs=[x] if x is not None else []))
+    dinp = "".join("%s %d %d %s 0\n" % (cs["id"], cs["prog"], len(cs["xs"]), " ".join(x.hex() for x in cs["xs"])) for cs in dcases)
+    rc, dout, derr = c.run([dexe], input=dinp)
+    dobs = {}
+    if rc != 0:
+        c.report("data-driver", "@Data driver failed (rc %d): %s" % (rc, derr[-400:]), {"stderr": derr[-2000:]}, False)
+    else:
+        for l in dout.splitlines():
+            t = l.split()
+            dobs[t[0]] = (float.fromhex(t[1]) if "x" in t[1] else float(t[1]), int(t[2]), float.fromhex(t[3]) if "x" in t[3] else float(t[3]), int(t[4]))
+    # ---- formulae
+    coq_thread.join()
+    nform = formula_stage(c, progs, exe)
+    combos = set()
+    if dobs:
+        combos = data_compare(c, tables, dprogs, dobs, dcases, gdir) or set()
+    ndata = len(dcases) if dobs else 0
+    c.coverage["rule"] = ("(1) %d random material properties (0..6 inputs, 0..3 parameters, formula trees of depth <= 4 over + - * / neg exp log sqrt cos sin tanh abs, "
+                          "literal constants) x random inputs; generic interface with defaults and with every parameter set through <name>_setParameter; C interface with defaults; "
+                          "relative tolerance 1e-13 against the extracted evaluator run on doubles.  (2) %d @Data material properties on %d tables (1..8 points; dyadic, "
+                          "10-digit decimal and the repository's 293.15/693.15/893.15 table; entries of `values` in any order) covering %d of the 15 combinations of "
+                          "interpolation {absent, linear, cubic_spline} x extrapolation {absent, true, false, constant, bound_to_last_value}; generic and C interfaces called "
+                          "at every node, twice inside every interval, and at 6 points outside (half a step, 1.5 / 2.25 and 10 table lengths away, both sides): %d calls "
+                          "compared with C11's Gallina model evaluated exactly over Q (vm_compute) and with an independent rational statement (piecewise-linear; natural "
+                          "spline in the moment formulation), model = statement exactly, code within 1e-13 (linear) / 1e-11 (spline: nodal derivatives printed with 14 "
+                          "digits) x (max|y| + max slope x (table length + distance to the table))" % (nform, len(dprogs), len(tables), len(combos), ndata))
+    c.coverage["programs"] = nform + len(dprogs)
+    c.trusted("props/C37/driver_template.cxx + generated registry", "Python printers: formula AST -> C++ text in @Function and -> prefix tokens for the extracted evaluator",
+              "props/C37/model_driver.ml supplies the record of double operations (OCaml float arithmetic and libm) to the extracted `run`",
+              "g++ compiles the generated formula without contraction (-ffp-contract=off) and in the written order",
+              "props/C37/datalaw.py: printer of @Data blocks, Python fractions for the independent statement, parsing of the vm_compute output; "
+              "props/C11/coq/{C11Model,C11Spec,C11Proofs,C11Spline}.v are read from props/C11 at run time")
+
+
+def formula_stage(c, progs, exe):
     cases = []
     for pi, p in enumerate(progs):
         k = 0
@@ -161,7 +415,7 @@ def main(c):
     rc, out, err = c.run([exe], input=inp)
     if rc != 0:
         c.report("driver", "driver failed (rc %d): %s" % (rc, err[-400:]), {"stderr": err[-2000:]}, False)
-        return
+        return len(progs)
     obs = {}
     for l in out.splitlines():
         t = l.split()
@@ -179,7 +433,7 @@ def main(c):
     mo = mo.split()
     if rc != 0 or len(mo) != len(cases):
         c.report("model-eval", "the extracted evaluator could not be run: " + me[-400:], {"stderr": me[-2000:]}, False)
-        return
+        return len(progs)
     c.log("model evaluated")
     order = [cs for pi in range(len(progs)) for cs in cases if cs["prog"] == pi]
     nprec = 0
@@ -190,7 +444,7 @@ def main(c):
         c.count(1, (p["name"], tuple(cs["xs"]), tuple(cs["ovs"] or [])), True)
         if i % 97 == 0:
             c.sample({"program": p["name"], "formula": cxx(p["body"], p), "defaults": p["defaults"], "inputs": cs["xs"], "overrides": cs["ovs"],
-                      "generic": g, "c": cv, "eval": m})
+                      "generic": g, "c": cv, "eval": m}, limit=4)
         rep = {"mfront_file": mfront_text(p), "inputs": cs["xs"], "parameter_values_set_at_run_time": cs["ovs"], "generic_interface": g, "generic_status": st,
                "c_interface": cv, "reference_eval": m}
         key_ = "%s:%s:%s" % (p["name"], ",".join(x.hex() for x in cs["xs"]), ",".join(v.hex() for v in (cs["ovs"] or [])))
@@ -215,16 +469,7 @@ def main(c):
                 c.report("c:" + key_, "C interface of\n%s\non inputs %s returns %r, the declared law evaluates to %r" % (mfront_text(p, "c"), cs["xs"], cv, m), rep, True)
     if nprec:
         c.notes.append("%d cases where the C interface differs only by the 6-digit truncation of parameter defaults" % nprec)
-    res = c.coq(["C37Model.v", "C37Spec.v", "C37Proofs.v", "Properties_C37.v"], timeout=600)
-    if not res.ok:
-        c.coq_failures(res)
-    c.coverage["rule"] = ("%d random material properties (0..6 inputs, 0..3 parameters, formula trees of depth <= 4 over + - * / neg exp log sqrt cos sin tanh abs, "
-                          "literal constants) x random inputs; generic interface with defaults and with every parameter set through <name>_setParameter; C interface with defaults; "
-                          "relative tolerance 1e-13 against the extracted evaluator run on doubles" % len(progs))
-    c.coverage["programs"] = len(progs)
-    c.trusted("props/C37/driver_template.cxx + generated registry", "Python printers: formula AST -> C++ text in @Function and -> prefix tokens for the extracted evaluator",
-              "props/C37/model_driver.ml supplies the record of double operations (OCaml float arithmetic and libm) to the extracted `run`",
-              "g++ compiles the generated formula without contraction (-ffp-contract=off) and in the written order")
+    return len(progs)
 
 
 guarded_main("C37", main)
